@@ -5,6 +5,7 @@ import (
 	"fmt"
 	"os"
 	"path/filepath"
+	"strings"
 	"time"
 )
 
@@ -67,6 +68,10 @@ func cmdReplay(args []string) int {
 		return 2
 	}
 	fmt.Printf("native outcome: %s %s\n", r.Kind, r.Msg)
+	if strings.HasPrefix(doc.Msg, "data race:") && r.Kind != "race" {
+		fmt.Println("the Go race detector reported nothing")
+		return 0
+	}
 	if r.Kind == "ok" || r.Kind == "assume-false" {
 		return 0
 	}
